@@ -44,7 +44,19 @@ out = []
 wit = {}
 for f in sorted(glob.glob("/verif/replays/C12/known-*.json")):
     d = json.load(open(f)); wit.setdefault(d["signature"], "replays/C12/" + os.path.basename(f))
+wit = {}
+ALT = "74bbbf5b94876f7e"      # second witness of multi/p1: reproduces only once the Multi-Paxos heartbeat fix is applied
+for f in sorted(glob.glob("/verif/replays/C12/known-*.json")):
+    d = json.load(open(f))
+    if ALT in f:
+        continue
+    wit.setdefault(d["signature"], "replays/C12/" + os.path.basename(f))
 for sig, what in W.items():
     out.append({"property": "C12", "signature": sig, "status": "open", "witness": wit.get(sig), "what": what})
+    if sig == "C12/multi/p1-two-commands-in-one-ballot-and-slot":
+        alt = [f for f in glob.glob("/verif/replays/C12/known-multi-p1-*.json") if ALT in f]
+        if alt:
+            out.append({"property": "C12", "signature": sig, "status": "open", "witness": "replays/C12/" + os.path.basename(alt[0]),
+                        "what": what + " (second witness: reproduces on the tree with C12-multipaxos-own-heartbeat-timer.patch applied, where the first one does not; on the unpatched tree this entry is reported stale, which is harmless)"})
 json.dump({"findings": out}, open("/verif/scratch/proposed_findings_C12.json", "w"), indent=1)
 print(len(out), "entries;", sum(1 for e in out if e["witness"]), "with witness")
